@@ -6,7 +6,7 @@ import random
 from harness.common import make_conn, Result, parsed, pmap
 
 OPS = [('fetchone',), ('fetchmany', None), ('fetchmany', 0), ('fetchmany', 1), ('fetchmany', 2), ('fetchmany', 5),
-       ('fetchall',), ('iter',), ('execute', 0), ('execute', 1), ('execute', 3), ('arraysize', 2), ('othercursor',)]
+       ('fetchall',), ('iter',), ('execute', 0), ('execute', 1), ('execute', 3), ('arraysize', 2), ('othercursor',), ('execute_other', 2)]
 
 
 def run_history(size, history, res=None):
@@ -17,8 +17,16 @@ def run_history(size, history, res=None):
     if curs.rowcount != -1: return ('rowcount -1 before execute', curs.rowcount, -1)
     if curs.fetchone() is not None or curs.fetchmany() != [] or curs.fetchall() != []:
         return ('fetch before execute is empty', 'non-empty', 'empty')
-    def execute(n):
+    cols = [('x', 'y')]      # model: names of the result columns of the last execute
+    asz = [1]                # model: the arraysize the user last set (DB-API default 1); execute never changes it
+
+    def execute(n, other=False):
+        if other:
+            curs.execute(parsed(f'SELECT x + 2 AS z FROM #t LIMIT {n}'))
+            cols[0] = ('z',)
+            return [(i + 2,) for i in range(n)]
         curs.execute(parsed(f'SELECT x, x + 1 AS y FROM #t LIMIT {n}'))
+        cols[0] = ('x', 'y')
         return [(i, i + 1) for i in range(n)]
     result = execute(size)
     delivered = 0
@@ -32,7 +40,7 @@ def run_history(size, history, res=None):
         elif op[0] == 'fetchmany':
             n = op[1]
             r = curs.fetchmany(n) if n is not None else curs.fetchmany()
-            k = n if n is not None else curs.arraysize
+            k = n if n is not None else asz[0]
             exp = remaining[:k]
             if r != exp: return ('fetchmany delivers next min(n, remaining) rows', r, exp)
             delivered += len(exp)
@@ -46,17 +54,22 @@ def run_history(size, history, res=None):
         elif op[0] == 'execute':
             result = execute(op[1])
             delivered = 0
+        elif op[0] == 'execute_other':
+            result = execute(op[1], other=True)
+            delivered = 0
         elif op[0] == 'arraysize':
             curs.arraysize = op[1]
+            asz[0] = op[1]
         elif op[0] == 'othercursor':
             other = conn.cursor()
             other.execute(parsed('SELECT x FROM #t LIMIT 2'))
             other.fetchone()
         if curs.rownumber != delivered: return ('rownumber == rows fetched so far', curs.rownumber, delivered)
         if curs.rowcount != len(result): return ('rowcount == rows produced by last execute', curs.rowcount, len(result))
+        if curs.arraysize != asz[0]: return ('arraysize is what the user set (default 1), whatever was executed since', curs.arraysize, asz[0])
         d = curs.description
-        if d is None or len(d) != 2: return ('description has one entry per column', d, 2)
-        for col, name in zip(d, ('x', 'y')):
+        if d is None or len(d) != len(cols[0]): return ('description has one entry per column of the last executed statement', d, cols[0])
+        for col, name in zip(d, cols[0]):
             seven = (name, col.type_code, None, None, None, None, None)
             if len(col) != 7 or tuple(col) != seven or col[0] != name or col[-7] != name or col[2:] != seven[2:] or col[:2] != seven[:2]:
                 return ('description entries are 7-item sequences', tuple(col), seven)
